@@ -220,6 +220,43 @@ def suite_geometries(ctx):
             hh, ww = sw.shape
             for k in (ks(hh, ww) if not ctx.quick else r.sample(ks(hh, ww), 3)):
                 check_geometry(ctx, sw, pname, orient, k, False)
+    # swaths with invalid navigation in some edge pixels (not the corners): the ring consists of valid pixel coordinates only
+    H, W = 9, 8
+    lon, lat = kc.swath(r, H, W, 10.0, 50.0, 16.0)
+    for pattern in ("both_nan", "lat_only_nan", "lon_only_nan"):
+        lo, la = lon.copy(), lat.copy()
+        for (i, j) in ((0, 3), (H - 1, 2), (4, 0), (5, W - 1), (2, W - 1)):
+            if pattern in ("both_nan", "lon_only_nan"):
+                lo[i, j] = np.nan
+            if pattern in ("both_nan", "lat_only_nan"):
+                la[i, j] = np.nan
+        for orient, olo, ola in _orientations(lo, la)[:4]:
+            sw = SwathDefinition(olo, ola)
+            for k in (None, 4, max(H, W) + 2):
+                inp = {"geometry": "pass_with_invalid_edge_pixels", "pattern": pattern, "orientation": orient, "vertices_per_side": k}
+                try:
+                    with warnings.catch_warnings():
+                        warnings.simplefilter("ignore")
+                        lon_s, lat_s = sw.get_bbox_lonlats(vertices_per_side=k, force_clockwise=True)
+                        b = sw.boundary(vertices_per_side=k, force_clockwise=True)
+                        clon, clat = b.contour()
+                        area_impl = float(b.contour_poly.area())
+                except Exception as e:  # noqa
+                    ctx.fail("BaseDefinition.get_bbox_lonlats", f"raised {type(e).__name__}: {str(e)[:120]}", inp, tags={"family": "invalid-edge"}, size=5)
+                    continue
+                probs = []
+                allv = np.concatenate([np.concatenate(lon_s), np.concatenate(lat_s), np.asarray(clon, float), np.asarray(clat, float)])
+                if not np.all(np.isfinite(allv)):
+                    probs.append("a boundary vertex has a NaN coordinate (it is not the coordinate of a valid pixel)")
+                elif not (0 < area_impl < 2 * math.pi):
+                    probs.append(f"polygon area {area_impl}")
+                else:
+                    valid = set(zip(np.round(olo[np.isfinite(olo) & np.isfinite(ola)], 9), np.round(ola[np.isfinite(olo) & np.isfinite(ola)], 9)))
+                    if any((round(float(a_), 9), round(float(b_), 9)) not in valid for a_, b_ in zip(clon, clat)):
+                        probs.append("a boundary vertex is not the coordinate of a valid pixel")
+                if probs:
+                    ctx.fail("BaseDefinition.get_bbox_lonlats", "; ".join(probs), inp, {"area": area_impl}, tags={"family": "invalid-edge"}, size=5)
+                ctx.case("invalid-edge", (pattern, orient, k), nontrivial=True)
     # long polar-orbiter passes (side longer than 180 degrees of arc) and a very wide lon/lat grid stored transposed
     n = 30
     t = np.linspace(0, math.radians(200), n)
@@ -269,7 +306,12 @@ def suite_geos(ctx):
     areas = [("full_disk", kc.mk_area(geos, 60, 60, (-5570248.4, -5567248.0, 5567248.0, 5570248.4))),
              ("inside_disk", kc.mk_area(geos, 40, 30, (-3.0e6, 1.0e6, 2.0e6, 4.5e6))),
              ("corner", kc.mk_area(geos, 40, 30, (1.0e6, 1.0e6, 5.5e6, 5.5e6))),
-             ("strip", kc.mk_area(geos, 60, 10, (-5570248.4, 2.0e6, 5567248.0, 3.0e6)))]
+             ("strip", kc.mk_area(geos, 60, 10, (-5570248.4, 2.0e6, 5567248.0, 3.0e6))),
+             # sectors in the other quadrants of the disk (x_ll > y_ur for the south-east one), and rows stored south-up
+             ("south_east", kc.mk_area(geos, 30, 35, (2.0e6, -4.5e6, 5.0e6, -1.0e6))),
+             ("south_west", kc.mk_area(geos, 35, 35, (-5.0e6, -4.0e6, -1.5e6, -0.5e6))),
+             ("south_east_rows_flipped", kc.mk_area(geos, 30, 35, (2.0e6, -1.0e6, 5.0e6, -4.5e6))),
+             ("north_west_rows_flipped", kc.mk_area(geos, 30, 30, (-4.0e6, 4.0e6, -1.0e6, 1.0e6)))]
     for nm, a in areas:
         for k in (None, 10, 21, 50):
             inp = {"geometry": "geos_" + nm, "vertices_per_side": k}
@@ -299,7 +341,8 @@ def suite_geos(ctx):
             x, y = pyproj.Proj(a.crs)(np.asarray(clon), np.asarray(clat))
             e = a.area_extent
             tol = 1e-6 * 5.6e6
-            if not (np.all(x >= e[0] - tol) and np.all(x <= e[2] + tol) and np.all(y >= e[1] - tol) and np.all(y <= e[3] + tol)):
+            ex0, ex1, ey0, ey1 = min(e[0], e[2]), max(e[0], e[2]), min(e[1], e[3]), max(e[1], e[3])
+            if not (np.all(x >= ex0 - tol) and np.all(x <= ex1 + tol) and np.all(y >= ey0 - tol) and np.all(y <= ey1 + tol)):
                 probs.append("a boundary vertex lies outside the area's extent")
             if probs:
                 ctx.fail("AreaDefinition._get_geostationary_boundary_sides", "; ".join(probs), inp, {"area": area_impl, "n": len(clon)}, tags={"geos": nm}, size=5)
